@@ -933,7 +933,7 @@ func ruleSibBound(c *Ctx, r *R) {
 			continue
 		}
 		n++
-		// in the method itself or in a helper it calls (the unwrapping of a bound function extracted into a method)
+		// in the method itself or in a helper that only it calls (the unwrapping of a bound function extracted into a method)
 		var asserts func(f *ssa.Function, depth int) bool
 		asserts = func(f *ssa.Function, depth int) bool {
 			for _, b := range f.Blocks {
@@ -942,7 +942,7 @@ func ruleSibBound(c *Ctx, r *R) {
 						return true
 					}
 					if call, ok := ins.(*ssa.Call); ok && depth < 2 {
-						if cal := call.Call.StaticCallee(); cal != nil && cal.Blocks != nil && cal.Pkg == fn.Pkg && cal != fn && len(cal.Blocks) <= 8 && asserts(cal, depth+1) {
+						if cal := call.Call.StaticCallee(); cal != nil && cal.Blocks != nil && cal.Pkg == fn.Pkg && cal != fn && c.partOf(cal, ssaFuncName(fn), 0) && asserts(cal, depth+1) {
 							return true
 						}
 					}
